@@ -195,3 +195,50 @@ class SymStream(object):
 
     def getvalue(self):
         return SBuf(self.cells, 'bytes') if any(not isinstance(c, int) for c in self.cells) else bytes(self.cells)
+
+
+class AbsStream(object):
+    """Seekable file of *symbolic length* with unmodelled content (host file stand-in).
+
+    Tracks length, position and the log of reads/writes with their byte offsets. Writing
+    past the end extends the file (the host zero-fills the gap, as regular files do).
+    """
+    _pyvc_trusted = True
+
+    def __init__(self, length, pos=0):
+        self.length = length
+        self.pos = pos
+        self.log = []          # ('write', offset, n, data) / ('read', offset, n)
+
+    def tell(self):
+        return self.pos
+
+    def seek(self, off, whence=0):
+        if whence == 0:
+            p = off
+        elif whence == 1:
+            p = self.pos + off
+        else:
+            p = self.length + off
+        if bool(p < 0):
+            raise ValueError('negative seek position')
+        self.pos = p
+        return p
+
+    def write(self, data):
+        n = data.n if isinstance(data, SRegion) else len(data)
+        self.log.append(('write', self.pos, n, data))
+        self.pos = self.pos + n
+        self.length = Max(self.length, self.pos)
+        return n
+
+    def read(self, n=-1):
+        avail = Max(self.length - self.pos, 0)
+        k = Min(n, avail)
+        self.log.append(('read', self.pos, k))
+        r = SRegion(k, kind='bytes', tag=('file', self.pos, k))
+        self.pos = self.pos + k
+        return r
+
+    def flush(self):
+        pass
